@@ -347,9 +347,9 @@ harness16l! {
     }
 }
 
-harness16! {
+harness16l! {
     // bound: builder canonicalize_vertices (hook), one vertex, D=2, axis 0 on the lattice, axis 1 fixed; UUID and data preserved
-    #[kani::unwind(5)]
+    #[kani::unwind(13)]
     fn c16_builder_canonicalize_vertices_2d() {
         let l = any_period();
         let v = any_value();
